@@ -40,7 +40,10 @@ MESH = {"want": ("findanswer",), "claim": ("mesh:find-not-answered", "mesh:unica
 POOL = [(0x5001, 1, 1, 10), (0x5001, 2, 1, 10), (0x5001, 1, 2, 11), (0x5002, 1, 1, 10), (0x5001, 3, 1, 12)]
 PEERS = [("10.0.8.9", 30490), ("2001:db8::89", 30490, 0, 0),
          # one link-local address behind two interfaces, and two ports of one host: requesters that differ in one component only
-         ("fe80::89", 30490, 0, 2), ("fe80::89", 30490, 0, 3), ("10.0.8.9", 30491)]
+         ("fe80::89", 30490, 0, 2), ("fe80::89", 30490, 0, 3), ("10.0.8.9", 30491),
+         # another SD process on the same host, bound to the same address and port (the sockets are opened with SO_REUSEPORT for
+         # exactly that): its messages come from this stack's own socket name
+         ("10.0.8.1", 30490)]
 SIBLING = {("fe80::89", 30490, 0, 2): ("fe80::89", 30490, 0, 3), ("fe80::89", 30490, 0, 3): ("fe80::89", 30490, 0, 2),
            ("10.0.8.9", 30490): ("10.0.8.9", 30491), ("10.0.8.9", 30491): ("10.0.8.9", 30490)}
 W = (0xFFFF, 0xFF, 0xFFFFFFFF)
